@@ -3,6 +3,7 @@ package props
 
 import (
 	"fmt"
+	"strings"
 	"go/types"
 
 	"golang.org/x/tools/go/ssa"
@@ -378,23 +379,32 @@ func c01Helpers(p *load.Program, run *report.Run, forms map[[3]int]*GateForms) {
 			want string
 		}{{"L0", fpai.Lab("w0"), "false"}, {"L1", fpai.Lab("w0", "r"), "true"}, {"other", fpai.Lab("junk"), "error"}}
 		for _, c := range cases {
-			in := newInterp(false, false)
-			res, err := in.Call(bf, []fpai.Val{fpai.Clone(w), c.l})
+			c := c
 			key := "circuit.BitFromLabel/label=" + c.name
+			var outcomes []string
+			_, err := fpai.Explore(map[string]bool{}, func(assume map[string]bool) error {
+				in := newInterp(false, false)
+				in.Assume = assume
+				res, err := in.Call(bf, []fpai.Val{fpai.Clone(w), c.l})
+				if err != nil {
+					return err
+				}
+				tup := res.(fpai.TupleV)
+				got := "error"
+				if _, isErr := tup[1].(fpai.ErrV); !isErr {
+					got = fmt.Sprint(tup[0].(fpai.BoolV).B)
+				}
+				outcomes = append(outcomes, got+assumeKey(assume))
+				if got != c.want {
+					run.Violate("O7-decode", key+assumeKey(assume), p.Rel(bf.Pos()), "decodes to "+got+", want "+c.want+" (a wire label may be any value, the zero label included)", nil)
+				}
+				return nil
+			}, 6)
 			if err != nil {
 				run.Undecided("O7-decode", key, p.Rel(bf.Pos()), err.Error())
 				continue
 			}
-			tup := res.(fpai.TupleV)
-			got := "error"
-			if _, isErr := tup[1].(fpai.ErrV); !isErr {
-				got = fmt.Sprint(tup[0].(fpai.BoolV).B)
-			}
-			if got != c.want {
-				run.Violate("O7-decode", key, p.Rel(bf.Pos()), "decodes to "+got+", want "+c.want, nil)
-			} else {
-				run.OK("O7-decode", key, p.Rel(bf.Pos()), got)
-			}
+			run.OK("O7-decode", key, p.Rel(bf.Pos()), strings.Join(outcomes, " "))
 		}
 	}
 	// O10 encrypt/decrypt
